@@ -366,7 +366,7 @@ func genC12Case(r *rand.Rand, id, p, n int) c12Case {
 	if r.Intn(6) == 0 {
 		k.Calls = append(k.Calls, c12Call{Table: k.Tables[0].Name, Feats: genStream(r, k.Tables[0], r.Intn(2*p+2), pkMode, &lasts[0], emptyMode)})
 	}
-	k.Class = fmt.Sprintf("tables=%d srs=%s pk=%s empty=%s", ntab, []string{"own id", "pre-seeded id, library content", "pre-seeded id, other content (F10)"}[srsMode],
+	k.Class = fmt.Sprintf("tables=%d srs=%s pk=%s empty=%s", ntab, []string{"own id", "pre-seeded id, library content", "pre-seeded id, other content (F10 regression)"}[srsMode],
 		[]string{"explicit", "auto"}[pkMode], []string{"some", "all", "none"}[emptyMode])
 	return k
 }
@@ -398,7 +398,6 @@ type c12Problem struct {
 	What     string
 	Observed any
 	Expected any
-	F10      bool
 }
 
 func c12Oracle(k c12Case, o c12Obs) []c12Problem {
@@ -553,12 +552,8 @@ func c12Oracle(k c12Case, o c12Obs) []c12Problem {
 		if got != nil && *got == ts.Srs {
 			continue
 		}
-		p := c12Problem{What: fmt.Sprintf("gpkg_spatial_ref_sys row %d differs from the source's", ts.Srs.ID), Observed: got, Expected: ts.Srs}
-		if lib, pre := knownSrsSpec(ts.Srs.ID); pre && lib != ts.Srs && got != nil && *got == lib {
-			p.F10 = true // exactly the mechanism of F10: the library pre-seeded this id and UpdateSRS did nothing
-			p.What = fmt.Sprintf("srs %d: the target keeps the row the library pre-seeds instead of the source's (F10)", ts.Srs.ID)
-		}
-		ps = append(ps, p)
+		// also for an id the library pre-seeds (-1, 0, 4326, 3857): F10, fixed by e2006e7, stays a regression class
+		ps = append(ps, c12Problem{What: fmt.Sprintf("gpkg_spatial_ref_sys row %d differs from the source's", ts.Srs.ID), Observed: got, Expected: ts.Srs})
 	}
 	// page structure, as far as SQLite shows it: one writing transaction per non-empty page + one extent update
 	if int(o.C1-o.C0) != writes {
@@ -791,6 +786,7 @@ func runC12(c *hc.Ctx) error {
 		"coordinates are integers below 2^23 in absolute value (exact in float64 and in the rtree's float32)",
 		"column names need no quoting; column defaults / CHECK / UNIQUE constraints are not part of 'columns' (createSQL copies name, type, NOT NULL, PRIMARY KEY only)",
 		"single-column integer primary key (a GeoPackage requirement)",
+		"the source's srs rows have a non-NULL description (getSpatialReferenceSystem reads NULL as the empty string, which is what the target then holds)",
 	}
 
 	dir, err := os.MkdirTemp("", "verif-c12-")
@@ -823,7 +819,6 @@ func runC12(c *hc.Ctx) error {
 			}
 		}
 	}
-	seenF10 := map[string]bool{}
 	results, err := runC12Cases(dir, cases, 16)
 	if err != nil {
 		return err
@@ -856,16 +851,6 @@ func runC12(c *hc.Ctx) error {
 		}
 		for _, p := range c12Oracle(k, r.Obs) {
 			v := hc.Violation{What: p.What, Input: k, Observed: p.Observed, Expected: p.Expected}
-			if p.F10 {
-				// the known finding is reported once per distinct message (hc keeps at most 50 violations per run:
-				// repeating it would crowd out a new one); every occurrence is counted in the distribution
-				v.KnownFinding = "F10"
-				c.Count("known finding F10 observed")
-				if seenF10[p.What] {
-					continue
-				}
-				seenF10[p.What] = true
-			}
 			c.Violate(v)
 		}
 		if r.Obs.Err == "" && r.Obs.File.Err == "" {
